@@ -31,7 +31,13 @@ pub struct C18Case {
     pub pre: Vec<(u16, Pre)>,
     /// give DIR as a path relative to the working directory
     pub relative_dir: bool,
+    /// injected failure: the k-th mutating libc call on the tree / DIR fails with this errno
+    /// (index into FAULT_ERRNOS); the run then uses one worker thread so that k is reproducible
+    #[serde(default)]
+    pub fault: Option<(u8, u8)>,
 }
+
+const FAULT_ERRNOS: [&str; 3] = ["EIO", "ENOSPC", "EPERM"];
 
 fn profile() -> ScenarioProfile {
     ScenarioProfile {
@@ -53,14 +59,14 @@ fn case_strategy() -> BoxedStrategy<C18Case> {
         0u16..u16::MAX,
         prop_oneof![5 => Just(Pre::CollidingFile), 2 => Just(Pre::DirAtTarget), 2 => Just(Pre::FileAtParent), 1 => Just(Pre::DanglingLink)],
     );
-    (dcase_strategy(profile()), proptest::collection::vec(pre, 0..3), prop::bool::weighted(0.3))
-        .prop_map(|(mut d, pre, relative_dir)| {
+    (dcase_strategy(profile()), proptest::collection::vec(pre, 0..3), prop::bool::weighted(0.3), prop::option::weighted(0.35, (1u8..25, 0u8..3)))
+        .prop_map(|(mut d, pre, relative_dir, fault)| {
             for p in d.dopts.priority.iter_mut() {
                 if *p % 12 == 6 || *p % 12 == 7 {
                     *p = 0;
                 }
             }
-            C18Case { d, pre, relative_dir }
+            C18Case { d, pre, relative_dir, fault }
         })
         .boxed()
 }
@@ -159,9 +165,18 @@ fn judge(c: &C18Case, g: &Grouped, target: &PathBuf) -> Verdict {
         target.clone()
     };
     let (args, _) = dedupe_args(&dc, &files, &g.canon_roots, &dir_arg, false);
-    let run = Run::fclones(&g.cd).args(&args).stdin(g.report_bytes.clone());
+    let mut run = Run::fclones(&g.cd).args(&args).stdin(g.report_bytes.clone());
+    if let Some((k, e)) = c.fault {
+        run = run
+            .env("LD_PRELOAD", SHIM)
+            .env("FCV_ROOT", format!("{}:{}", tree.display(), target.display()))
+            .env("FCV_LOG", g.cd.base.join("shim.log"))
+            .env("FCV_FAULT", format!("{}:{}", k, FAULT_ERRNOS[e as usize % FAULT_ERRNOS.len()]))
+            .env("RAYON_NUM_THREADS", "1");
+    }
     let cmd = format!("{}\n{} < report", g.group_cmd, run.cmdline());
     let out = run.run();
+    let injected = c.fault.is_some() && std::fs::read_to_string(g.cd.base.join("shim.log")).map(|l| l.contains("INJECTED")).unwrap_or(false);
     let after = Snapshot::take(&[&tree, target]);
     let sig = vec![format!("target-{}", d.move_target), if c.relative_dir { "relative-dir".to_string() } else { "absolute-dir".to_string() }];
     let dd = diff(&before, &after, false);
@@ -227,7 +242,8 @@ fn judge(c: &C18Case, g: &Grouped, target: &PathBuf) -> Verdict {
             return fail("stray-new-path", format!("{:?}", B((*p).clone())));
         }
     }
-    if new_files.len() != moved.len() {
+    // (after an injected failure an incomplete copy may be left under DIR; the statement does not forbid that)
+    if new_files.len() != moved.len() && !injected {
         return fail("moved-count-mismatch", format!("{} sources moved, {} new regular files under DIR", moved.len(), new_files.len()));
     }
     // intended files that were not moved must be untouched, with a warning
@@ -243,17 +259,20 @@ fn judge(c: &C18Case, g: &Grouped, target: &PathBuf) -> Verdict {
     if not_moved > 0 && !out.stderr_s().contains("warn") {
         return fail("no-warning-for-unmoved-file", format!("{} intended files were left in place silently", not_moved));
     }
-    if obstacles == 0 && not_moved > 0 {
+    if obstacles == 0 && not_moved > 0 && !injected {
         return fail("file-not-moved-without-obstacle", format!("{} intended files left in place although nothing was in the way", not_moved));
     }
     let copy_fallback = d.move_target >= 2 && !moved.is_empty();
-    let nontrivial = (obstacles > 0 && !intended.is_empty()) || copy_fallback;
+    let nontrivial = (obstacles > 0 && !intended.is_empty()) || copy_fallback || injected;
     let mut classes = sig.clone();
     if copy_fallback {
         classes.push("copy-fallback-cross-device".into());
     }
     if obstacles > 0 {
         classes.push("obstacles".into());
+    }
+    if injected {
+        classes.push(if d.move_target >= 2 { "injected-failure-copy-path".into() } else { "injected-failure-rename-path".into() });
     }
     Verdict::Pass { nontrivial, classes }
 }
@@ -265,8 +284,8 @@ pub fn check(tier: Tier) -> i32 {
     cleanup_process_scratch();
     ctx.finish(
         "exploration",
-        "proptest-generated scenarios (hostile file/dir names, hard links, priorities, -n, isolate) x `move DIR` with DIR outside the tree, inside the scanned tree or on the other device (tmpfs -> ext4: rename fails with EXDEV, copy fallback), absolute or cwd-relative, pre-populated with obstacles derived from a dry run: a colliding regular file, a directory at the destination, a file where a parent directory is needed, a dangling symlink. Oracle (inventories before/after): everything that existed under DIR is untouched; every vanished source has its bytes at DIR/<absolute source path>, which did not exist before; no file altered in place; #new regular files under DIR == #moved; intended-but-unmoved sources are untouched and a warning is logged; without obstacles every intended file is moved. Non-trivial = an obstacle was in place or the cross-device copy fallback moved a file.",
-        &["intention of the command is learnt from a dry run of the same command (C11 checks dry-run fidelity)", "injected rename/copy failures are exercised by C05's fault enumeration"],
+        "proptest-generated scenarios (hostile file/dir names, hard links, priorities, -n, isolate) x `move DIR` with DIR outside the tree, inside the scanned tree or on the other device (tmpfs -> ext4: rename fails with EXDEV, copy fallback), absolute or cwd-relative, pre-populated with obstacles derived from a dry run: a colliding regular file, a directory at the destination, a file where a parent directory is needed, a dangling symlink; in a third of the cases the k-th (k = 1..24) mutating libc call on the tree / DIR is made to fail with EIO, ENOSPC or EPERM by the LD_PRELOAD interposer (single worker thread). Oracle (inventories before/after): everything that existed under DIR is untouched; every vanished source has its bytes at DIR/<absolute source path>, which did not exist before; no file altered in place; #new regular files under DIR == #moved; intended-but-unmoved sources are untouched and a warning is logged; without obstacles and without an injected failure every intended file is moved; after an injected failure the only relaxation is that an incomplete copy may remain under DIR. Non-trivial = an obstacle was in place, a failure was actually injected, or the cross-device copy fallback moved a file.",
+        &["intention of the command is learnt from a dry run of the same command (C11 checks dry-run fidelity)", "failures are injected at libc level, one per run; every position of every call sequence is enumerated by C05"],
     )
 }
 
